@@ -158,6 +158,9 @@ def whole_devs(what, first, firstvals, second, secondvals):
     return out
 
 
+_buf: dict = {}
+
+
 def run_segment(job):
     """One GridSegment case on a frame -> list of (prop, key, desc)."""
     warnings.simplefilter('ignore')
@@ -169,6 +172,21 @@ def run_segment(job):
         f = _g[fk]
         s = case['s']
         lats, lons = f.lat([s[1], s[3]]), f.lon([s[0], s[2]])
+        # GridSegment.tla BufferForms: the coordinates of a flight arrive in new arrays, or (every second segment) in the SAME
+        # two arrays as the flight before, refilled in place - per-flight buffers; what is gridded is what the arrays hold now
+        if (s[0] + s[1] + s[2] + s[3]) % 2 == 1:
+            if 'la' not in _buf:
+                _buf['la'], _buf['lo'] = np.empty(2), np.empty(2)
+            # (the flight before: a fixed other segment gridded from the same two arrays - every case is self-contained)
+            _buf['la'][:] = f.lat([1, s[3] + 2])
+            _buf['lo'][:] = f.lon([s[2] + 3, 0])
+            try:
+                f.g2.grid_trajectory(_buf['la'], _buf['lo'], state_variables=(np.array([1.0, 2.0]),), integrated_variables=(np.array([1.0]),))
+            except Exception:
+                pass
+            _buf['la'][:] = lats
+            _buf['lo'][:] = lons
+            lats, lons = _buf['la'], _buf['lo']
         exact = frame_key[1] <= 0.011 and abs(frame_key[2]) < 1.0
         devs = []
         try:
